@@ -55,7 +55,9 @@ def gen(rng, broker, tier):
             elif r < 0.40 and slots < 3:
                 cat = rng.choice(["NORMAL", "NORMAL", "NORMAL", "DELAYED", "DEAD"])
                 ops.append({"op": "start", "slot": slots, "queue": rng.choice(queues), "cat": cat,
-                            "topics": rng.choice([None, None, ["t1"], ["t2"], ["t1", "t2"]])})
+                            "topics": rng.choice([None, None, ["t1"], ["t2"], ["t1", "t2"]]),
+                            # bounded prefetch buffer (what a worker with a tasks_limit asks for) or unbounded
+                            "max_unacked": rng.choice([None, None, 1, 2])})
                 slots += 1
             elif r < 0.62 and slots:
                 ops.append({"op": "consume", "slot": rng.randrange(slots), "timeout_us": rng.choice([2000, 30_000, 150_000, 1_200_000])})
@@ -300,7 +302,7 @@ async def _main(sim, sc, out):
                     model[op["id"]] = dict(new, uncertain=({"state": "acked"}, new), uncertain_op="enqueue", uncertain_at=sim.clock.us)
                 check_id(op["id"], "enqueue")
             elif o == "start":
-                cons = mb.get_consumer(op["queue"], op["topics"], None, r.MessageCategory(op["cat"]))
+                cons = mb.get_consumer(op["queue"], op["topics"], op.get("max_unacked"), r.MessageCategory(op["cat"]))
                 consumers_active.append([op["queue"], op["cat"], op["topics"], cons, ci, None])
                 status, _ = await call(ci, "start", None, cons.start)
                 if status != "ok":
